@@ -251,6 +251,8 @@ type UDP struct {
 	script  Script
 	// AnswerConnect false => connect requests are logged and ignored
 	AnswerConnect atomic.Bool
+	// ConnectDelay (nanoseconds) postpones the answer to connect requests
+	ConnectDelay atomic.Int64
 	connIDs       map[uint64]bool
 	nextConn      uint64
 }
@@ -312,7 +314,11 @@ func (t *UDP) loop() {
 					out := make([]byte, 16)
 					copy(out[4:8], trx)
 					binary.BigEndian.PutUint64(out[8:], id)
-					t.conn.WriteToUDP(out, from)
+					if d := time.Duration(t.ConnectDelay.Load()); d > 0 {
+						go func() { time.Sleep(d); t.conn.WriteToUDP(out, from) }()
+					} else {
+						t.conn.WriteToUDP(out, from)
+					}
 				}
 				continue
 			}
